@@ -19,6 +19,9 @@ Model/Typed.vos Model/Typed.vok Model/Typed.required_vos: Model/Typed.v Model/Ba
 Model/Procs.vo Model/Procs.glob Model/Procs.v.beautified Model/Procs.required_vo: Model/Procs.v Model/Base.vo Model/Schema.vo Model/Wire.vo Model/Utf8.vo Model/Typed.vo
 Model/Procs.vio: Model/Procs.v Model/Base.vio Model/Schema.vio Model/Wire.vio Model/Utf8.vio Model/Typed.vio
 Model/Procs.vos Model/Procs.vok Model/Procs.required_vos: Model/Procs.v Model/Base.vos Model/Schema.vos Model/Wire.vos Model/Utf8.vos Model/Typed.vos
+Model/Arb.vo Model/Arb.glob Model/Arb.v.beautified Model/Arb.required_vo: Model/Arb.v Model/Base.vo Model/Utf8.vo Model/Typed.vo
+Model/Arb.vio: Model/Arb.v Model/Base.vio Model/Utf8.vio Model/Typed.vio
+Model/Arb.vos Model/Arb.vok Model/Arb.required_vos: Model/Arb.v Model/Base.vos Model/Utf8.vos Model/Typed.vos
 Model/Inst.vo Model/Inst.glob Model/Inst.v.beautified Model/Inst.required_vo: Model/Inst.v Model/Schema.vo Model/Procs.vo Gen/Generated.vo
 Model/Inst.vio: Model/Inst.v Model/Schema.vio Model/Procs.vio Gen/Generated.vio
 Model/Inst.vos Model/Inst.vok Model/Inst.required_vos: Model/Inst.v Model/Schema.vos Model/Procs.vos Gen/Generated.vos
@@ -133,3 +136,9 @@ Proofs/StrsP.vos Proofs/StrsP.vok Proofs/StrsP.required_vos: Proofs/StrsP.v Mode
 Properties/C13.vo Properties/C13.glob Properties/C13.v.beautified Properties/C13.required_vo: Properties/C13.v Model/Base.vo Model/Schema.vo Model/Wire.vo Model/Utf8.vo Model/Typed.vo Model/Procs.vo Model/Inst.vo Spec/Tables.vo Spec/Limits.vo Proofs/WireP.vo Proofs/TypedP.vo Proofs/FramingP.vo Proofs/Utf8P.vo Proofs/StrsP.vo
 Properties/C13.vio: Properties/C13.v Model/Base.vio Model/Schema.vio Model/Wire.vio Model/Utf8.vio Model/Typed.vio Model/Procs.vio Model/Inst.vio Spec/Tables.vio Spec/Limits.vio Proofs/WireP.vio Proofs/TypedP.vio Proofs/FramingP.vio Proofs/Utf8P.vio Proofs/StrsP.vio
 Properties/C13.vos Properties/C13.vok Properties/C13.required_vos: Properties/C13.v Model/Base.vos Model/Schema.vos Model/Wire.vos Model/Utf8.vos Model/Typed.vos Model/Procs.vos Model/Inst.vos Spec/Tables.vos Spec/Limits.vos Proofs/WireP.vos Proofs/TypedP.vos Proofs/FramingP.vos Proofs/Utf8P.vos Proofs/StrsP.vos
+Proofs/ArbP.vo Proofs/ArbP.glob Proofs/ArbP.v.beautified Proofs/ArbP.required_vo: Proofs/ArbP.v Model/Base.vo Model/Utf8.vo Model/Typed.vo Model/Arb.vo Proofs/WireP.vo Proofs/Utf8P.vo
+Proofs/ArbP.vio: Proofs/ArbP.v Model/Base.vio Model/Utf8.vio Model/Typed.vio Model/Arb.vio Proofs/WireP.vio Proofs/Utf8P.vio
+Proofs/ArbP.vos Proofs/ArbP.vok Proofs/ArbP.required_vos: Proofs/ArbP.v Model/Base.vos Model/Utf8.vos Model/Typed.vos Model/Arb.vos Proofs/WireP.vos Proofs/Utf8P.vos
+Properties/C19.vo Properties/C19.glob Properties/C19.v.beautified Properties/C19.required_vo: Properties/C19.v Model/Base.vo Model/Schema.vo Model/Utf8.vo Model/Typed.vo Model/Arb.vo Model/Inst.vo Spec/Tables.vo Spec/Limits.vo Proofs/WireP.vo Proofs/Utf8P.vo Proofs/ArbP.vo
+Properties/C19.vio: Properties/C19.v Model/Base.vio Model/Schema.vio Model/Utf8.vio Model/Typed.vio Model/Arb.vio Model/Inst.vio Spec/Tables.vio Spec/Limits.vio Proofs/WireP.vio Proofs/Utf8P.vio Proofs/ArbP.vio
+Properties/C19.vos Properties/C19.vok Properties/C19.required_vos: Properties/C19.v Model/Base.vos Model/Schema.vos Model/Utf8.vos Model/Typed.vos Model/Arb.vos Model/Inst.vos Spec/Tables.vos Spec/Limits.vos Proofs/WireP.vos Proofs/Utf8P.vos Proofs/ArbP.vos
